@@ -14,7 +14,8 @@ NB(alg) == CASE alg = "Skein256" -> 32 [] alg = "Skein512" -> 64 [] alg = "Skein
 G(e) == IF e.ev = "ff" THEN SkeinIV(NB(e.alg), e.n) ELSE WordsOf(e.chain)
 CounterOk(e) == e.ev = "ff" \/ e.base = WResizeL(e.fed, 4)
 Want(e) == SkeinFrom(G(e), e.rest, NB(e.alg), e.n, e.base, e.first)
-Check(e) == e.res = "ok" /\ CounterOk(e) /\ e.out = Want(e)
+RefOk(e) == ("out_ref" \in DOMAIN e) => (e.out = e.out_ref /\ e.chain = e.chain_ref /\ e.base = e.base_ref /\ e.pos = e.pos_ref)   \* one-call vs chunk-fed instance
+Check(e) == e.res = "ok" /\ CounterOk(e) /\ RefOk(e) /\ e.out = Want(e)
 Init == l \in 1..N /\ phase = 0 /\ bad = FALSE
 Next == /\ phase = 0 /\ phase' = 1 /\ l' = l
         /\ bad' = IF Check(Rec[l]) THEN FALSE ELSE PrintT(<<"REJECT", l>>)
